@@ -287,3 +287,37 @@ func TestEscapedPanicIsReported(t *testing.T) {
 		t.Fatalf("status=%v panic=%q", res.Status, res.PanicVal)
 	}
 }
+
+// A TryRLock can see that a writer holds the lock without blocking on it. With Unlock as a scheduling point one
+// preemption (the writer parked before its Unlock) reaches the failing TryRLock; without those points the writer's
+// critical section is atomic and the failure is unreachable at any bound.
+func TestTryLockSeesHeldLockOnlyWithUnlockPoints(t *testing.T) {
+	body := func(out *[]string) {
+		var mu vsync.RWMutex
+		var wg vsync.WaitGroup
+		wg.Add(2)
+		sched.Go(func() { defer wg.Done(); mu.Lock(); mu.Unlock() })
+		sched.Go(func() {
+			defer wg.Done()
+			if mu.TryRLock() {
+				mu.RUnlock()
+				*out = append(*out, "got")
+			} else {
+				*out = append(*out, "busy")
+			}
+		})
+		wg.Wait()
+	}
+	defer sched.SetUnlockPoints(false)
+	for _, on := range []bool{false, true} {
+		sched.SetUnlockPoints(on)
+		for bound := 0; bound <= 2; bound++ {
+			outs, _, _ := exploreAll(bound, false, body)
+			_, busy := outs["busy|ok"]
+			want := on && bound >= 1
+			if busy != want {
+				t.Errorf("unlock points %v, bound %d: failing TryRLock reachable = %v, want %v (outcomes %v)", on, bound, busy, want, keys(outs))
+			}
+		}
+	}
+}
